@@ -16,7 +16,7 @@ import (
 func init() { evals["C15"] = evalC15 }
 
 func evalC15(p prog.Program) Outcome {
-	res := prog.Run(p, prog.RunOpts{ProjTag: "c15", Guard: guardFor("C15", p), TolerateUndoError: true, MakeGuard: makeGuardC15})
+	res := prog.Run(p, prog.RunOpts{ProjTag: "c15", Guard: guardFor("C15", p), TolerateUndoError: true, NormaliseChunks: true, MakeGuard: makeGuardC15})
 	out := Outcome{Fail: res.Fail, Hist: res.Hist, Ev: res.Ev}
 	if res.Fail == nil {
 		out.NonTrivial = res.Ev["undo_redo_executed"] > 0 && (res.Ev["concurrent_pairs"] > 0 || res.Ev["client_gc_purged"] > 0)
@@ -59,6 +59,36 @@ func genC15() *rapid.Generator[prog.Program] {
 				}
 			}
 			p.Steps = steps
+		}
+		if rapid.IntRange(0, 3).Draw(t, "staggered") == 0 {
+			// Stratum "undo on replicas in different purge states": client 0 is
+			// the only writer of the text / the tree; it makes a few edits
+			// (incl. styles, so that deleted ranges cover nodes with different
+			// attributes) and pushes them; the peers sync twice (they may purge
+			// what client 0 deleted, client 0 still holds it); client 0 then
+			// undoes / redoes and pushes; more rounds in between.
+			kind := rapid.IntRange(0, 1).Draw(t, "kind")
+			pool := [][]string{{"tedit", "tedit", "tedit", "tstyle"}, {"trtext", "trtext", "trdel", "trins", "trstyle"}}[kind]
+			steps := append([]prog.Step{}, c15Base...)
+			for episode := rapid.IntRange(1, 2).Draw(t, "episodes"); episode > 0; episode-- {
+				for i := rapid.IntRange(2, 5).Draw(t, "edits"); i > 0; i-- {
+					steps = append(steps, prog.Step{Who: 0, Op: rapid.SampledFrom(pool).Draw(t, "op"),
+						A: rapid.IntRange(0, 7).Draw(t, "a"), B: rapid.IntRange(0, 7).Draw(t, "b"), C: rapid.IntRange(0, 8).Draw(t, "c")})
+				}
+				steps = append(steps, prog.Step{Who: 0, Op: "sync"})
+				for w := 1; w < p.Cfg.N; w++ {
+					steps = append(steps, prog.Step{Who: w, Op: "sync"}, prog.Step{Who: w, Op: "sync"})
+				}
+				for i := rapid.IntRange(1, 4).Draw(t, "undos"); i > 0; i-- {
+					steps = append(steps, prog.Step{Who: 0, Op: rapid.SampledFrom([]string{"undo", "undo", "redo"}).Draw(t, "uop")})
+					if rapid.IntRange(0, 2).Draw(t, "pushnow") == 0 {
+						steps = append(steps, prog.Step{Who: 0, Op: "sync"}, prog.Step{Who: 1, Op: "sync"}, prog.Step{Who: 1, Op: "sync"})
+					}
+				}
+				steps = append(steps, prog.Step{Who: 0, Op: "sync"}, prog.Step{Who: 0, Op: "round"})
+			}
+			p.Steps = steps
+			p.Tail = nil
 		}
 		p.Cfg.ClientNoGC = rapid.IntRange(0, 3).Draw(t, "nogc") == 0
 		if rapid.IntRange(0, 2).Draw(t, "partition") > 0 {
